@@ -327,13 +327,32 @@ def compare_sites(ctx, tag, body, code_sites, spec, lenient_extra=False):
         # guards
         want_g = [[(a, pol) for (a, _, pol) in conj] for conj in ss["guards"](frm)]
         want_g = [[(setalg.norm_atom(a), pol) for a, pol in conj] for conj in want_g]
+        # inside the loop the origin set has a member: every superset of it is non-empty (early exits such as
+        # `if pieces.is_empty() { return false }` add nothing), and a path claiming such a set empty is not a path
+        code_g = []
+        for conj in cs.guards:
+            keep = []
+            dead = False
+            for a, pol in conj:
+                if isinstance(a, tuple) and a and a[0] == "isempty" and cs.loop is not None:
+                    try:
+                        sup = setalg.subset(bool_to_expr(cs.loop), bool_to_expr(a[1]))
+                    except Exception:
+                        sup = False
+                    if sup:
+                        if pol is True:
+                            dead = True
+                        continue
+                keep.append((a, pol))
+            if not dead:
+                code_g.append(keep)
         atoms = []
-        for conj in cs.guards + want_g:
+        for conj in code_g + want_g:
             for a, pol in conj:
                 if a not in atoms:
                     atoms.append(a)
         try:
-            ok, wit = setalg.guards_equivalent(cs.guards, want_g, implications_among(atoms))
+            ok, wit = setalg.guards_equivalent(code_g, want_g, implications_among(atoms))
         except ValueError as e:
             ok, wit = False, {"error": str(e)}
         ctx.check(ok, "%s:%s:guard" % (tag, ss["name"]),
